@@ -58,6 +58,25 @@ def check_spec(name, spec, sub_instrs, max_len):
                 break
             if rd != "unsat":
                 break
+        # is it the stack bound rather than the length bound?  the original sub-block is itself a realizing sequence of
+        # length <= init_progr_len (when no rule shortened the bound): how many cells does it use?
+        try:
+            from vlib import blockcheck as _BC, evm_smt as _E
+            toks = [_BC._tok2(t) for t in _BC.tokens_of_text(" ".join(sub_instrs))]
+            need = _E.needed_depth(toks)[0]
+            h = peak = max(need, len(spec["src_ws"]))
+            for t in toks:
+                a = _E.arity(t[0])
+                h += a[1] - a[0]
+                peak = max(peak, h)
+            peak -= max(0, need - len(spec["src_ws"]))
+            if peak > bs:
+                rs, ms = query(synth.Synth(spec, n, peak), 20000, "c16:stack-deficit")
+                if rs == "sat":
+                    rec["stack_short"] = peak - bs
+                    rec["bad"][-1] += "; with the %d cells the original sub-block itself uses, a sequence of length <= %d exists" % (peak, n)
+        except Exception:                     # noqa: classification only
+            pass
     elif r == "sat":
         seq = S.sequence(m)
         ok, why, _ = realize.simulate(spec, seq, S.bs)
@@ -180,7 +199,7 @@ def main():
     texts += F.f_rule_existing()[:: (48 if tier == "quick" else 2)]
     texts += F.f_squares(sorted(set(ops) | {"MUL", "ADD", "EXP", "SUB", "DIV"}))
     texts += F.f_exh(2 if tier == "quick" else 3)
-    texts += F.f_exh(3, vocab=F.V_EXH2)[:: (2 if tier == "quick" else 1)]
+    texts += F.f_exh(3, vocab=F.V_EXH2)[:: (3 if tier == "quick" else 1)]
     if tier == "thorough":
         texts += F.f_exh(4, vocab=F.V_EXH2)[::16]
     if tier == "thorough":
@@ -195,7 +214,7 @@ def main():
         jobs = [("text", t) for i, t in enumerate(texts) if i % g == 0]
         nd = 1 if tier == "quick" else 4
         for d in [docs[(k * nd + i) % len(docs)] for i in range(nd)]:
-            for lo in range(0, 60 if tier == "quick" else 120, 20):
+            for lo in range(0, 40 if tier == "quick" else 120, 20):
                 jobs.append(("doc", d, lo, lo + 20))
         tasks.append((o, jobs, 300))
     ub = gasol.optset("none", "gas", True, True, "ub-greedy")
@@ -234,7 +253,10 @@ def main():
                     apps = [_re.sub(r"^EVAL.*", "EVAL", r_) for r_ in rec.get("rules", [])]
                     d = rec.get("deficit")
                     known_apps = sorted(a for a in apps if rep.match_known("discount-overcount:rule=" + a))
-                    if d is not None and known_apps and d <= len(known_apps):
+                    if rec.get("stack_short"):
+                        # the length bound is fine: max_sk_sz is below what the original sub-block itself uses
+                        key = "stack-bound:max_sk_sz below the cells the original sub-block uses"
+                    elif d is not None and known_apps and d <= len(known_apps):
                         key = "discount-overcount:rule=" + known_apps[0]
                     elif d == 1 and len(set(apps)) == 1:
                         key = "discount-overcount:rule=" + apps[0]
